@@ -56,7 +56,7 @@ def run(ctx):
             if inc is True:
                 ctx.fail('G1.incomplete-means-need-more', dp, loc(B.root), 'the parser reported Incomplete but the decoder returned %s' % absx.fmt(v)[:50]); continue
             if is_err is True:
-                ctx.add('G2.parse-error-path', dp, loc(B.root), v[0] == 'ctor' and v[1] == 'Err' and not muts, 'a hard parse error must return Err without consuming')
+                ctx.add('G2.parse-error-path', dp, loc(B.root), (v[0] == 'tryerr' or (v[0] == 'ctor' and v[1] == 'Err')) and not muts, 'a hard parse error must return Err without consuming')
                 continue
             # past the parser
             n_succ += 1
